@@ -5,7 +5,7 @@
 From Coq Require Import ZArith List Bool Lia.
 From JL.std Require Import GoBase GoFloat GoStrconv GoTime GoVal GoBase64.
 From JL.gen Require Import CastGen ConvGen.
-From JL.model Require Import CastRun Row RowRun.
+From JL.model Require Import CastRun Row MapTo RowRun.
 From JL.proofs Require Import CastTotal RowProofs.
 Import ListNotations.
 Open Scope Z_scope.
@@ -521,6 +521,29 @@ Section Safe.
     - apply IH. exact (wf_get r k _ Hr E).
   Qed.
 
+  (* ---------- MapTo: the guards of mapToField keep every reflect setter on a field of its kind ---------- *)
+  Lemma map_to_field_np fk v : np (map_to_field O fk v).
+  Proof.
+    unfold np. destruct v as [g| | |c]; try discriminate.
+    destruct g as [ |b|k z|x|x|s|b|s|t|s|tag]; try discriminate.
+    - cbn. destruct fk; discriminate.
+    - destruct k; cbn; destruct fk as [fk| | | | | |]; cbn; try discriminate; destruct fk; cbn; discriminate.
+    - cbn. destruct fk as [fk| | | | | |]; cbn; discriminate.
+    - cbn. destruct fk as [fk| | | | | |]; cbn; discriminate.
+    - cbn. destruct fk; discriminate.
+    - cbn. destruct fk; discriminate.
+  Qed.
+
+  Lemma map_to_fields_np n r fs : (forall k, np (row_get n k r)) -> np (map_to_fields O n r fs).
+  Proof.
+    intros Hget. induction fs as [|f rest IH]; [discriminate|]. cbn [map_to_fields].
+    destruct (negb (f_exported f)).
+    - apply np_bind; [exact IH | intros; discriminate].
+    - apply np_bind; [apply Hget|]. intros [value|] _.
+      + apply np_bind; [apply map_to_field_np|]. intros o _. apply np_bind; [exact IH | intros; discriminate].
+      + apply np_bind; [exact IH | intros; discriminate].
+  Qed.
+
   Theorem query_safe r q : wf_crow r -> query O r q <> APanic.
   Proof.
     intros Hr. destruct r as [m l]. destruct (wf_crow_keys _ _ Hr) as [Hm Hl].
@@ -543,6 +566,7 @@ Section Safe.
         * contradiction Hn; reflexivity.
     - apply (cell_raw_np FUEL (CRow (MkRow m l))). exact Hr.
     - apply (cell_export_np FUEL (CRow (MkRow m l))). exact Hr.
+    - apply np_bind; [|intros; discriminate]. destruct t; [|discriminate]. apply map_to_fields_np. exact Hget.
   Qed.
 
   (* ---------- histories ---------- *)
